@@ -4,7 +4,7 @@
    packet to all callbacks, unsolicited value changes on the device.  [run c (init c) evs = Some (s, o)] ranges
    over ALL event lists, i.e. all interleavings of any number of user threads with the updater and dispatcher
    threads at the granularity "a thread runs until its next blocking operation", and all reply delays. *)
-From CF Require Import Common.Bytes C04.Model C04.Proofs C04.Proofs_b C04.Proofs_c C04.Proofs_d C04.Proofs_e C04.ExtModel C04.Proofs_x C04.Proofs_m C04.Race C04.Race_proofs C04.Examples.
+From CF Require Import Common.Bytes C04.Model C04.Proofs C04.Proofs_b C04.Proofs_c C04.Proofs_d C04.Proofs_e C04.ExtModel C04.Proofs_x C04.Proofs_m C04.Race C04.Race_proofs C04.Cache C04.Examples.
 Open Scope Z_scope.
 
 (* ---------------------------------------------------------------- typed writes *)
@@ -111,6 +111,32 @@ Theorem C04_device_reply_carries_value : forall c s i b, 0 <= i < 65536 ->
   aget i (aset i b (d_store s)) = b.
 Proof. intros c s i b Hi. split; [now apply dev_read|now apply dev_write]. Qed.
 Print Assumptions C04_device_reply_carries_value.
+
+(* ---------------------------------------------------------------- the reply parser has no error channel for write echoes *)
+
+(* _ParamUpdater._new_packet_cb on the write channel (protocol >= 4), when the request for parameter e is the one awaited:
+   the echo of ANY value byte string of the declared width is a success echo — it is decoded with e's type, stored in the
+   cache, handed once to every observer, and the lock is released.  No value (2 = ENOENT, 5, 12, 22, ... on an 8-bit
+   type included) is read as an error code: the reply format carries no status byte on this channel. *)
+Theorem C04_write_echo_is_always_a_value : forall c s e b,
+  wf c -> In e (toc c) -> length b = ty_width (e_ty e) -> s_pat s = Some (id2 (e_id e)) ->
+  exists v, unpack (e_ty e) b = Some v /\
+            updater_cb c (2, id2 (e_id e) ++ b) s = (release (val_state c s e v), val_obs c s e v) /\
+            cache_get (e_id e) (s_cache (release (val_state c s e v))) = Some v /\
+            upd_calls (val_obs c s e v) = map (fun cb => (cb, e_name e, v)) (cbs_for c e).
+Proof.
+  intros c s e b Hw He Hl Hp. destruct (updater_cb_write c s e b Hw He Hl Hp) as [v [Hu Hc]].
+  exists v. repeat split; try assumption; [apply cache_get_set_same|apply upd_calls_val].
+Qed.
+Print Assumptions C04_write_echo_is_always_a_value.
+
+(* the same for a read reply with status byte 0, whatever the value bytes look like *)
+Theorem C04_read_reply_value_is_never_a_status : forall c s e b,
+  wf c -> In e (toc c) -> length b = ty_width (e_ty e) -> s_pat s = Some (id2 (e_id e)) ->
+  exists v, unpack (e_ty e) b = Some v /\
+            updater_cb c (1, id2 (e_id e) ++ [0] ++ b) s = (release (val_state c s e v), val_obs c s e v).
+Proof. intros c s e b Hw He Hl Hp. exact (updater_cb_read c s e b Hw He Hl Hp). Qed.
+Print Assumptions C04_read_reply_value_is_never_a_status.
 
 (* ---------------------------------------------------------------- attribution of misc replies *)
 
@@ -302,3 +328,27 @@ Print Assumptions C04_stale_request_refuted.
 Theorem C04_send_window_refuted : exists evs s, urun (mkRC true true) u0 evs = Some s /\ u_wire s = [(1, mkRq 0 0 5)].
 Proof. destruct ex_send_window as [s H]. exists ex_window, s. exact H. Qed.
 Print Assumptions C04_send_window_refuted.
+
+(* ---------------------------------------------------------------- a table restored from a TOC cache file *)
+
+(* Writing an element to the cache and reading it back gives the element again (access 0 / 1 on disk, library constant 1),
+   so everything proved about tables holds for tables that come from a cache hit. *)
+Theorem C04_cache_file_round_trip : forall e x pers, pers (e_id e) = e_pers e -> of_disk 1 pers (to_disk e x) = e.
+Proof. exact of_to_disk. Qed.
+Print Assumptions C04_cache_file_round_trip.
+
+(* A parameter that is read-only on disk (access 1, what HEAD writes and read-only cache directories ship) is refused
+   without any transmission when the table of the session was restored from the file: AttributeError, state unchanged. *)
+Theorem C04_cached_readonly_refused_no_tx : forall c s pers ds name v d,
+  toc c = restore 1 pers ds -> s_updated s = true ->
+  find (fun x => k_name x =? name) ds = Some d -> k_access d = RO_ACCESS_DISK ->
+  step c s (EvSet name v) = Some (s, [ORaise X_ATTR]).
+Proof. exact restored_readonly_refused. Qed.
+Print Assumptions C04_cached_readonly_refused_no_tx.
+
+(* With RO_ACCESS = 0x40 (the firmware flag) in place of 1 the same file lets a write to the read-only parameter 1 through. *)
+Theorem C04_flag_constant_refuted : exists s o, run (ex_cache_cfg 64) (init (ex_cache_cfg 64))
+    [EvRead 0; EvRead 1; EvUGet; EvUSend; EvDeliver; EvUGet; EvUSend; EvDeliver; EvSet 1 (VInt 7); EvUGet; EvUSend] = Some (s, o) /\
+  txs o = [(1, [0; 0]); (1, [1; 0]); (2, [1; 0; 7; 0])].
+Proof. exact ex_flag_constant. Qed.
+Print Assumptions C04_flag_constant_refuted.
